@@ -161,6 +161,9 @@ CANARIES = [
 
 # Semantics-PRESERVING edits: the check must NOT answer exit 1 for any of them (exit 0 or exit 2 are both acceptable).
 EQUIVALENTS = [
+    # found by auditing what the mutation sweep REPORTED: a node without a page may record any run length; a split that never finds a cut is slow, not wrong
+    ('eq-with-data-run-length-one', 'C05', 'src/node.rs', '            page_id: 0,\n            num_pages: 0,\n            children: Vec::new(),\n            data,\n            deleted: false,\n            original_key,\n            pagesize,\n            spilled: false,\n            parent: None,\n        }\n    }\n\n    pub(crate) fn insert_child', '            page_id: 0,\n            num_pages: 1,\n            children: Vec::new(),\n            data,\n            deleted: false,\n            original_key,\n            pagesize,\n            spilled: false,\n            parent: None,\n        }\n    }\n\n    pub(crate) fn insert_child'),
+    ('eq-split-never-counts', 'C05', 'src/node.rs', '                    count += 1;\n                    let size = LEAF_SIZE + (l.size() as u64);', '                    count += 0;\n                    let size = LEAF_SIZE + (l.size() as u64);'),
     ('eq-merge-no-diagnostic-pass', 'C05', 'src/node.rs', '                let mut last = l1[0].key();\n                for l in l1[1..].iter() {\n                    if last >= l.key() {\n                        println!("HA. GOT \'EM!");\n                    }\n                    last = l.key();\n                }\n', ''),
     # a child without changes answers with its committed header: storing it again or not is the same
     ('eq-spill-skips-clean-children', 'C05', 'src/bucket.rs', '            let bucket_meta = b.spill(tx_freelist)?;\n            // Store updated bucket metadata in a map since self is borrowed\n            bucket_metas.insert(key.clone(), bucket_meta);', '            if !b.dirty { continue; }\n            let bucket_meta = b.spill(tx_freelist)?;\n            bucket_metas.insert(key.clone(), bucket_meta);'),
